@@ -1,5 +1,965 @@
-"""Engine-A harness over mici.transitions (C01, C12, C08 transition part)."""
+"""Engine-A harness over mici.transitions (C01; the containment part is reused by C12).
+
+Orbit model (contract of the integrator, justified by C02/A6): restricted to one orbit the integrator is a bijection on states
+indexed by integers -- `integrator.step(state)` returns a NEW state object with index `idx + dir` and the same `dir`, or raises an
+IntegratorError.  `system.h(state)` is an uninterpreted function H(idx) of the index (optionally NaN), momenta an uninterpreted
+P(idx).  Target weights, momentum sums and acceptance-probability sums over index intervals are *additive functionals*
+(uninterpreted F(lo, hi) with F(i,i) = f(i) and F(lo,hi) = F(lo,mid) + F(mid+1,hi) instantiated where the code merges), so one
+proof covers every system, step size, orbit and tree depth.
+
+Random draws: `rng.uniform()` returns a draw token; comparing it with a probability p is a probabilistic choice (McIver-Morgan):
+the path forks, each side records its probability factor (p / 1-p) in the ghost list `prob`, and the side obligation 0 <= p <= 1 is
+generated.  A proved statement about (result, probability) on every path is a statement about the exact law of the result.
+"""
+from __future__ import annotations
+
+import z3
+
+from .. import core, mathlib
+from ..models import Opaque
+from ..pyvc import (INF, Bound, Exec, Func, Infeasible, Interp, LoopSpec, Namespace, Native, Obj, OutsideSubset, PathEnd, PyRaise,
+                    exc_name, is_z3, lift, make_exc, to_real)
+from .integ_model import install_std
+
+TRANS = "mici.transitions"
+P = "transitions."
+
+H = z3.Function("H", z3.IntSort(), z3.RealSort())  # Hamiltonian along the orbit
+HNAN = z3.Function("H_is_nan", z3.IntSort(), z3.BoolSort())
+PM = z3.Function("P_mom", z3.IntSort(), z3.RealSort())  # momentum (one abstract coordinate)
+ERR = z3.Function("step_fails", z3.IntSort(), z3.IntSort(), z3.BoolSort())  # step from idx in direction d raises
+
+
+class UDraw:
+    """rng.uniform() result: only usable in a comparison `u < p` (probabilistic choice)."""
+
+    def __init__(self, w, k):
+        self.w, self.k = w, k
+
+    def _pv_compare(self, ex, op, other):
+        if op != "__lt__":
+            raise OutsideSubset(f"uniform draw used in comparison {op}")
+        return PBool(self.w, other, self.k)
+
+
+class PBool:
+    """Bernoulli(p) outcome not yet decided; deciding it forks the path and records the probability factor."""
+
+    def __init__(self, w, p, k):
+        self.w, self.p, self.k = w, p, k
+        self.value = None
+
+    def decide(self, ex):
+        if self.value is None:
+            ctx = ex.ctx
+            p = self.p
+            if hasattr(p, "_pv_as_real"):
+                p = p._pv_as_real(ex)
+            p = to_real(p) if is_z3(p) or not isinstance(p, float) else p
+            self.w.prob_args.append(p)
+            c = ctx.choose(2, f"draw{self.k}")
+            self.value = bool(c)
+            self.w.prob.append((self.k, self.value, p))
+            pr = to_real(p) if not isinstance(p, float) else z3.RealVal(str(p))
+            if not ctx.feasible((pr if self.value else 1 - pr) != 0):
+                raise Infeasible()  # zero-probability outcome: contributes nothing to any expectation
+        return self.value
+
+    def _pv_truth(self, ex):
+        return self.decide(ex)
+
+    def _pv_binop(self, ex, op, other):
+        v = self.decide(ex)
+        if isinstance(op, str):
+            import operator
+            f = {"__mul__": operator.mul, "__rmul__": lambda a, b: b * a, "__add__": operator.add, "__radd__": lambda a, b: b + a,
+                 "__sub__": operator.sub, "__rsub__": lambda a, b: b - a}.get(op)
+            if f is None:
+                return NotImplemented
+            return f(int(v), other)
+        return NotImplemented
+
+
+def make_interp(run, timeout_ms=20000):
+    it = Interp(run, timeout_ms=timeout_ms)
+    install_std(it)
+    it.ext_modules["numpy"] = Namespace(
+        "np", isnan=Native(mathlib.np_isnan, "np.isnan"), exp=Native(mathlib.np_exp, "np.exp"), log=Native(mathlib.m_log, "np.log"),
+        inf=INF, nan=float("nan"), asarray=Native(lambda ex, v: v, "np.asarray"), sum=Native(lambda ex, v: v, "np.sum"),
+        int64="int64", float64="float64")
+    it.ext_modules["logging"] = Namespace("logging", getLogger=Native(lambda ex, *a: Opaque("logger", info=Native(lambda ex2, *a2, **k2: None, "logger.info")), "getLogger"))
+    return it
+
+
+class TWorld:
+    """Per-path harness state for the transitions module."""
+
+    def __init__(self, it, ctx, errors=True, nan_h=False):
+        self.it, self.ctx = it, ctx
+        self.mod = it.module(TRANS)
+        self.ex = Exec(it, ctx, self.mod, self.mod.env, "harness")
+        self.errors = errors
+        self.nan_h = nan_h
+        self.steps = []  # ghost: completed integrator steps (from idx, dir)
+        self.failed = []  # ghost: failed step attempts
+        self.h_calls = []
+        self.h_faults = []
+        self.fault_after = 1  # the first call (start state, previously accepted) is not a fault site
+        self.prob = []  # (draw number, outcome, probability of True)
+        self.prob_args = []
+        self.draws = 0
+        self.int_draws = []
+        self.int_value = None
+        self.state_of = {}
+        self.cs = it.module("mici.states").resolve("ChainState", ctx)
+        self.system = Opaque("system", h=Native(self._h, "system.h"))
+        self.step_size = z3.Real("step_size")
+        ctx.assume(self.step_size > 0)
+        self.integrator = Opaque("integrator", step=Native(self._step, "integrator.step"), step_size=self.step_size)
+        self.rng = Opaque("rng", uniform=Native(self._uniform, "rng.uniform"), integers=Native(self._integers, "rng.integers"))
+
+    # ---- states -------------------------------------------------------------------------------------
+    def make_state(self, idx, d):
+        st = self.ex.call(self.cs, [], {"pos": idx, "mom": PM(idx), "dir": d})
+        return st
+
+    def idx(self, st):
+        return st.attrs["_variables"]["pos"]
+
+    def dir(self, st):
+        return st.attrs["_variables"]["dir"]
+
+    # ---- stubs ----------------------------------------------------------------------------------------
+    def _h(self, ex, state):
+        i = self.idx(state)
+        self.h_calls.append(i)
+        if self.nan_h and ex.ctx.branch(HNAN(i)):
+            # a non-finite model value either propagates as a NaN Hamiltonian or makes a library matrix constructor raise mici.errors.LinAlgError
+            if len(self.h_calls) > self.fault_after and ex.ctx.choose(2, "nan-surfaces-as-LinAlgError") == 1:
+                self.h_faults.append(i)
+                self.raise_error(ex, "LinAlgError", "Array is not finite.")
+            return float("nan")
+        return H(i)
+
+    def raise_error(self, ex, name, msg="integrator failure"):
+        cls = ex.interp.module("mici.errors").resolve(name, ex.ctx)
+        raise PyRaise(ex.call(cls, [msg], {}))
+
+    def _step(self, ex, state):
+        i, d = self.idx(state), self.dir(state)
+        if self.errors and ex.ctx.branch(ERR(i, lift(d))):
+            kind = ex.ctx.choose(3, "error-kind")
+            self.failed.append((i, d))
+            self.raise_error(ex, ["NonReversibleStepError", "ConvergenceError", "IntegratorError"][kind])
+        else:
+            ex.ctx.assume(z3.Not(ERR(i, lift(d)))) if self.errors else None
+        self.steps.append((i, d))
+        return self.make_state(z3.simplify(lift(i) + lift(d)), d)
+
+    def _uniform(self, ex, *a, **k):
+        if a or k:
+            raise OutsideSubset("rng.uniform with arguments")
+        self.draws += 1
+        return UDraw(self, self.draws)
+
+    def _integers(self, ex, lo, hi=None, **k):
+        if k:
+            raise OutsideSubset("rng.integers with keyword arguments")
+        n = self.int_value if self.int_value is not None else ex.ctx.fresh("n_draw", "int")
+        # numpy Generator.integers(low, high): uniform on [low, high) -- contract of the dependency (A10)
+        ex.ctx.assume(z3.And(n >= lift(lo), n < lift(hi)))
+        self.int_draws.append((lo, hi, n))
+        return n
+
+    def new(self, cls_name, **kw):
+        cls = self.mod.resolve(cls_name, self.ctx)
+        return self.ex.call(cls, [self.system, self.integrator], kw)
+
+    def path_prob(self):
+        """product of the probability factors of the decided draws on this path"""
+        out = z3.RealVal(1)
+        for k, v, p in self.prob:
+            p = to_real(p) if not isinstance(p, float) else z3.RealVal(str(p))
+            out = out * (p if v else 1 - p)
+        return out
+
+
+def is_err(it, exc, name):
+    cls = it.module("mici.errors").resolve(name, None)
+    return isinstance(exc, Obj) and exc.cls.issub(cls)
+
+
+# ---------------------------------------------------------------------------------------------------------------
+# Metropolis transitions
+
+
+def metropolis(run, it, prop="C01"):
+    q = "MetropolisIntegrationTransition._sample_n_step"
+    tag = P + q
+    run.function("mici.transitions." + q)
+    run.function("mici.transitions.MetropolisStaticIntegrationTransition.sample")
+    run.function("mici.transitions.MetropolisRandomIntegrationTransition.sample")
+    run.function("mici.transitions._process_integrator_error")
+    N = z3.Int("n_step")
+    s0, d0 = z3.Int("s0"), z3.Int("d0")
+
+    def harness(ctx, kind):
+        w = TWorld(it, ctx, errors=True, nan_h=True)
+        ctx.assume(z3.Or(d0 == 1, d0 == -1))
+        entry = {}
+
+        def havoc(ex):
+            i = ex.ctx.fresh("steps_done", "int")
+            ex.ctx.ghost["loop_index"] = i
+            if ex.ctx.choose(2, "first-iteration") == 0:
+                ex.ctx.assume(i == 0)
+                ex.env.set("state_p", entry["state"])
+            else:
+                ex.ctx.assume(i >= 1)
+                ex.env.set("state_p", w.make_state(s0 + d0 * i, d0))
+            entry["i"] = i
+            w.steps[:] = [("generic", i)]
+
+        def inv(ex):
+            i = lift(ex.ctx.ghost.get("loop_index", 0))
+            sp = ex.env.lookup("state_p")
+            return z3.And(i >= 0, i <= N, lift(w.idx(sp)) == s0 + d0 * i, lift(w.dir(sp)) == d0, (i == 0) == z3.BoolVal(sp is entry["state"]))
+        it.loop_specs[(q, 0)] = LoopSpec(inv, havoc)
+        try:
+            if kind == "static":
+                ctx.assume(N >= 1)
+                tr = w.new("MetropolisStaticIntegrationTransition", n_step=N)
+                n_expr = N
+            else:
+                lo, hi = z3.Int("n_lower"), z3.Int("n_upper")
+                ctx.assume(z3.And(lo > 0, lo < hi))
+                tr = w.new("MetropolisRandomIntegrationTransition", n_step_range=(lo, hi))
+                w.int_value = N
+            st = w.make_state(s0, d0)
+            entry["state"] = st
+            try:
+                out, stats = w.ex.call(w.ex.getattr(tr, "sample"), [st, w.rng], {})
+            except PyRaise as pr:
+                ctx.run.ob(tag + f"/no-exception-escapes[{kind}]", core.FAILED, "pyvc", detail=f"{exc_name(pr.exc)} escapes sample()")
+                return
+        finally:
+            del it.loop_specs[(q, 0)]
+        if kind == "random":
+            ok = len(w.int_draws) == 1 and w.int_draws[0][0] is lo and w.int_draws[0][1] is hi
+            ctx.run.ob(P + "MetropolisRandomIntegrationTransition.sample/step-count-drawn-independently-of-the-state", core.DISCHARGED if ok else core.FAILED, "pyvc",
+                       detail="" if ok else str(w.int_draws), text="n_step = rng.integers(*n_step_range): one draw whose law does not depend on the state (uniform on [lower, upper))")
+            if not ok:
+                return
+            ctx.prove(P + "MetropolisRandomIntegrationTransition.sample/drawn-step-count-positive", N >= 1)
+        failed = bool(w.failed)
+        i = entry.get("i")
+        oi, od = lift(w.idx(out)), lift(w.dir(out))
+        fin = s0 + d0 * N
+        if failed:
+            # error path: the start state is returned with its direction reversed, as a rejection
+            ctx.prove(tag + "/error-is-a-rejection", z3.And(z3.BoolVal(out is st), oi == s0, od == -d0), text="IntegratorError: chain stays at the start state (direction flipped as for a rejection)")
+            ctx.prove(tag + "/error-accept-stat-zero", lift(stats["accept_stat"]) == 0)
+            done = i if i is not None else 0
+            ctx.prove(tag + "/error-n_step-counts-completed-steps", lift(stats["n_step"]) == done, text="n_step == number of integrator steps completed before the failing one")
+            flags = (stats["non_reversible_step"], stats["convergence_error"])
+            kind_e = [f for f in w.failed]
+            ctx.run.ob(tag + "/error-draws-nothing", core.DISCHARGED if not w.prob else core.FAILED, "pyvc", detail="" if not w.prob else "a uniform draw was consumed on the error path")
+            return
+        # no error
+        ctx.prove(tag + "/n_step-counts-steps", lift(stats["n_step"]) == N, text="n_step statistic == number of integrator steps taken")
+        nan0, nan1 = HNAN(s0), HNAN(fin)
+        a = stats["metrop_accept_prob"]
+        areal = to_real(a) if is_z3(a) or not isinstance(a, float) else z3.RealVal(str(a))
+        nan_path = any(isinstance(x, float) for x in [a])
+        # acceptance probability min(1, exp(h0 - h1)) (0 if a Hamiltonian is NaN)
+        pc_nan = ctx.feasible(z3.Or(nan0, nan1)) and not ctx.feasible(z3.Not(z3.Or(nan0, nan1)))
+        if pc_nan:
+            ctx.prove(tag + "/nan-hamiltonian-never-accepted", z3.And(areal == 0, lift(stats["accept_stat"]) == 0), text="NaN Hamiltonian: acceptance probability 0")
+            ctx.prove(tag + "/nan-rejection-returns-start", z3.And(oi == s0, od == -d0))
+            return
+        E = mathlib.exp_term(ctx, H(s0) - H(fin))
+        ctx.prove(tag + "/acceptance-probability-is-metropolis-ratio", areal == z3.If(H(s0) - H(fin) >= 0, 1, E),
+                  text="metrop_accept_prob == min(1, exp(h(start) - h(end)))")
+        ctx.prove(tag + "/accept-stat-is-acceptance-probability", to_real(lift(stats["accept_stat"])) == areal)
+        ctx.prove(tag + "/acceptance-probability-in-unit-interval", z3.And(areal >= 0, areal <= 1))
+        ok = len(w.prob) == 1
+        ctx.run.ob(tag + "/exactly-one-uniform-draw", core.DISCHARGED if ok else core.FAILED, "pyvc", detail="" if ok else f"{len(w.prob)} draws")
+        if not ok:
+            return
+        _, accepted, p = w.prob[0]
+        ctx.prove(tag + "/draw-compared-with-acceptance-probability", to_real(p) == areal, text="accept iff uniform() < metrop_accept_prob")
+        if accepted:
+            ctx.prove(tag + "/accept-moves-to-trajectory-end", z3.And(oi == fin, od == d0), text="accept: end of the n-step trajectory, direction restored by the double flip")
+        else:
+            ctx.prove(tag + "/reject-stays-with-direction-reversed", z3.And(oi == s0, od == -d0), text="reject: start state with direction reversed")
+        # detailed balance of the involutive proposal F(i, d) = (i + d n, -d):  w(s) a(s -> F s) == w(F s) a(F s -> s)
+        E0, E1, Er = mathlib.exp_term(ctx, -H(s0)), mathlib.exp_term(ctx, -H(fin)), mathlib.exp_term(ctx, H(fin) - H(s0))
+        a_fwd = z3.If(H(s0) - H(fin) >= 0, 1, E)
+        a_rev = z3.If(H(fin) - H(s0) >= 0, 1, Er)
+        # homomorphism instances: exp(-h0) exp(h0 - h1) == exp(-h1) and exp(-h1) exp(h1 - h0) == exp(-h0)
+        t1 = mathlib.exp_hom(ctx, -H(s0), H(s0) - H(fin))
+        t0 = mathlib.exp_hom(ctx, -H(fin), H(fin) - H(s0))
+        ctx.prove(tag + "/detailed-balance.lemma-instances-well-formed", z3.And(t1 == E1, t0 == E0))
+        ctx.prove(tag + "/detailed-balance", E0 * a_fwd == E1 * a_rev,
+                  text="exp(-h(s)) min(1, exp(h(s)-h(s'))) == exp(-h(s')) min(1, exp(h(s')-h(s)))  (s' = proposal of s; the proposal map is an involution)")
+    for kind in ("static", "random"):
+        it.explore(lambda ctx, kind=kind: harness(ctx, kind), f"metropolis[{kind}]")
+
+    def orbit_lemma(ctx):
+        """Orbit-level invariance from the contract proved above.  On an error-free orbit the kernel is
+        K((i,d) -> (i+dn, d)) = a(i, i+dn),  K((i,d) -> (i,-d)) = 1 - a(i, i+dn),  a(i,k) = min(1, exp(H(i)-H(k))).
+        The only start states reaching x = (j,e) are (j-en, e) [accept] and (j,-e) [reject], so
+        sum_s pi(s) K(s,x) = pi(j-en) a(j-en, j) + pi(j) (1 - a(j, j-en))  which must equal pi(j) = exp(-H(j))."""
+        j, e, n = z3.Int("j"), z3.Int("e"), z3.Int("n")
+        ctx.assume(z3.And(z3.Or(e == 1, e == -1), n >= 1))
+        k = j - e * n
+        Ek, Ej = mathlib.exp_term(ctx, -H(k)), mathlib.exp_term(ctx, -H(j))
+        Ekj, Ejk = mathlib.exp_term(ctx, H(k) - H(j)), mathlib.exp_term(ctx, H(j) - H(k))
+        t1 = mathlib.exp_hom(ctx, -H(k), H(k) - H(j))
+        t2 = mathlib.exp_hom(ctx, -H(j), H(j) - H(k))
+        ctx.prove(tag + "/orbit-invariance.lemma-instances-well-formed", z3.And(t1 == Ej, t2 == Ek))
+        a_kj = z3.If(H(k) - H(j) >= 0, 1, Ekj)
+        a_jk = z3.If(H(j) - H(k) >= 0, 1, Ejk)
+        ctx.prove(tag + "/orbit-invariance", Ek * a_kj + Ej * (1 - a_jk) == Ej,
+                  text="sum over start states of exp(-H(start)) K(start -> x) == exp(-H(x)) for every end state x (fixed n; random n is a state-independent mixture)")
+    it.explore(orbit_lemma, "metropolis-orbit-lemma")
+
+
+# ---------------------------------------------------------------------------------------------------------------
+# Dynamic (tree) transitions
+
+WL = z3.Function("w_leaf", z3.IntSort(), z3.RealSort())  # target weight of an orbit state (defined per class below)
+WT = z3.Function("W", z3.IntSort(), z3.IntSort(), z3.RealSort())  # sum of leaf weights over an index interval
+SP = z3.Function("S_mom", z3.IntSort(), z3.IntSort(), z3.RealSort())  # sum of momenta over an index interval
+AL = z3.Function("a_leaf", z3.IntSort(), z3.RealSort())  # min(1, exp(h_init - H(i)))
+AC = z3.Function("A_acc", z3.IntSort(), z3.IntSort(), z3.RealSort())  # sum of a_leaf over an interval
+POW2 = z3.Function("pow2", z3.IntSort(), z3.IntSort())
+CRIT = z3.Function("criterion", z3.IntSort(), z3.IntSort(), z3.RealSort(), z3.BoolSort())
+ADDITIVE = ((WT, WL), (SP, PM), (AC, AL))
+MAXDH = z3.Real("max_delta_h")
+LOGU = z3.Real("log_u")
+
+
+def split_axioms(ctx, lo, mid, hi):
+    """instances of additivity F(lo,hi) == F(lo,mid) + F(mid+1,hi) for lo <= mid < hi (definition of the interval functionals)"""
+    for F, f in ADDITIVE:
+        ctx.assume(z3.Implies(z3.And(lo <= mid, mid < hi), F(lo, hi) == F(lo, mid) + F(mid + 1, hi)))
+
+
+def leaf_axioms(ctx, i):
+    for F, f in ADDITIVE:
+        ctx.assume(F(i, i) == f(i))
+
+
+def pow2_axioms(ctx, d):
+    ctx.assume(POW2(0) == 1)
+    ctx.assume(z3.Implies(d >= 1, POW2(d) == 2 * POW2(d - 1)))
+    ctx.assume(z3.Implies(d >= 0, POW2(d) >= 1))
+    ctx.assume(z3.Implies(d >= 1, POW2(d - 1) >= 1))
+
+
+class DWorld(TWorld):
+    """World for the dynamic transitions: class-specific leaf weights, tree objects, ghost counters."""
+
+    def __init__(self, it, ctx, cls_name, **kw):
+        super().__init__(it, ctx, **kw)
+        self.cls_name = cls_name
+        self.slice = cls_name.startswith("Slice")
+        self.crit_calls = []
+        self.tc_calls = []
+        self.h_init = z3.Real("h_init")
+        self.log_draw = None
+        self.subtree_cls = self.mod.resolve("_SubTree", ctx)
+        self.law = {}  # id(proposal state) -> (lo, hi): drawn from the interval with probability w_leaf / W (contract of _build_tree)
+        self.ghost_steps = z3.IntVal(0)
+        self.ghost_acc = z3.RealVal(0)
+
+    def define_leaf(self, i):
+        """definitions of the per-state quantities the additive functionals sum (instantiated for the indices that occur)"""
+        ctx = self.ctx
+        i = lift(i)
+        if self.slice:
+            ctx.assume(WL(i) == z3.If(LOGU <= -H(i), z3.RealVal(1), z3.RealVal(0)))
+        else:
+            ctx.assume(WL(i) == mathlib.exp_term(ctx, -H(i)))
+        e = mathlib.exp_term(ctx, self.h_init - H(i))
+        ctx.assume(AL(i) == z3.If(self.h_init - H(i) >= 0, 1, e))
+        leaf_axioms(ctx, i)
+
+    def functional_facts(self, lo, hi):
+        """sums of non-negative terms are non-negative (and positive for exp weights): facts about the interval functionals"""
+        ctx = self.ctx
+        ctx.assume(z3.Implies(lo <= hi, z3.And(AC(lo, hi) >= 0, WT(lo, hi) >= 0)))
+        if not self.slice:
+            ctx.assume(z3.Implies(lo <= hi, WT(lo, hi) > 0))
+
+    def new_transition(self, **kw):
+        crit = Native(self._criterion, "termination_criterion")
+        self.extra = kw.pop("extra", None)
+        if self.extra is None:
+            self.extra = z3.Bool("do_extra_subtree_checks")
+        self.max_depth = z3.Int("max_tree_depth")
+        self.ctx.assume(self.max_depth >= 1)
+        return self.new(self.cls_name, max_tree_depth=self.max_depth, max_delta_h=MAXDH, termination_criterion=crit, do_extra_subtree_checks=self.extra, **kw)
+
+    def _criterion(self, ex, system, s1, s2, sum_mom):
+        if system is not self.system:
+            ex.ctx.run.ob(P + "DynamicIntegrationTransition._termination_criterion/criterion-gets-own-system", core.FAILED, "pyvc", detail="other system object passed")
+        a, b = lift(self.idx(s1)), lift(self.idx(s2))
+        self.crit_calls.append((a, b, to_real(sum_mom)))
+        return CRIT(a, b, to_real(sum_mom))
+
+    def make_tree(self, lo, hi, d, depth):
+        neg, pos = self.make_state(lo, d), self.make_state(hi, d)
+        return self.ex.call(self.subtree_cls, [], {"negative": neg, "positive": pos, "sum_mom": SP(lo, hi), "weight": WT(lo, hi), "depth": depth})
+
+    def tree_is(self, tree, lo, hi, depth, d=None):
+        a = tree.attrs
+        conds = [lift(self.idx(a["negative"])) == lo, lift(self.idx(a["positive"])) == hi, to_real(a["sum_mom"]) == SP(lo, hi), to_real(a["weight"]) == WT(lo, hi),
+                 lift(a["depth"]) == depth]
+        if d is not None:
+            conds += [lift(self.dir(a["negative"])) == d, lift(self.dir(a["positive"])) == d]
+        return z3.And(*conds)
+
+
+def _logrep_contract(ex, *args, **kw):
+    """contract of utils.LogRepFloat taken from C20: LogRepFloat(log_val=x) denotes the non-negative real exp(x); +, /, <, min act on the denoted reals"""
+    if args and not kw:
+        v = args[0]
+        return to_real(v)
+    x = kw["log_val"]
+    if isinstance(x, float) and x == -INF:
+        return z3.RealVal(0)
+    return mathlib.exp_term(ex.ctx, to_real(x))
+
+
+def install_dynamic(it, w_holder):
+    it.overrides[(TRANS, "LogRepFloat")] = Native(_logrep_contract, "LogRepFloat")
+
+
+def build_tree_contract(w):
+    """Contract used for the recursive calls of _build_tree (and by `sample`); every clause is proved of the body by build_tree()."""
+    def contract(ex, self_, depth, state, stats, rng, aux_vars):
+        ctx = ex.ctx
+        i, d = lift(w.idx(state)), lift(w.dir(state))
+        depth = lift(depth)
+        pow2_axioms(ctx, depth)
+        n = POW2(depth)
+        outcome = ctx.choose(3, "build_tree-outcome")
+        if outcome == 2:
+            # aborted by an IntegratorError or by a sub-tree criterion: no tree, some steps taken, at most one flag raised
+            k = ctx.fresh("steps_before_abort", "int")
+            acc = ctx.fresh("acc_before_abort", "real")
+            ctx.assume(z3.And(k >= 0, k <= n, acc >= 0, acc <= z3.ToReal(k)))
+            stats["n_step"] = lift(stats["n_step"]) + k
+            stats["sum_metrop_accept_prob"] = to_real(stats["sum_metrop_accept_prob"]) + acc
+            w.ghost_steps = w.ghost_steps + k
+            w.ghost_acc = w.ghost_acc + acc
+            flag = ctx.choose(4, "abort-flag")
+            if flag:
+                stats[["", "diverging", "non_reversible_step", "convergence_error"][flag]] = True
+            w.aborted = True
+            return True, None, None
+        lo = z3.If(d == 1, i + 1, i - n)
+        lo_c = ctx.fresh("lo", "int")
+        ctx.assume(lo_c == lo)
+        lo = lo_c
+        hi = lo + n - 1
+        w.functional_facts(lo, hi)
+        tree = w.make_tree(lo, hi, d, depth)
+        pi = ctx.fresh("proposal", "int")
+        ctx.assume(z3.And(pi >= lo, pi <= hi))
+        prop = w.make_state(pi, d)
+        w.law[id(prop)] = (lo, hi)
+        stats["n_step"] = lift(stats["n_step"]) + n
+        stats["sum_metrop_accept_prob"] = to_real(stats["sum_metrop_accept_prob"]) + AC(lo, hi)
+        w.ghost_steps = w.ghost_steps + n
+        w.ghost_acc = w.ghost_acc + AC(lo, hi)
+        w.contract_trees.append((tree, prop, lo, hi))
+        if outcome == 1:
+            # complete tree whose own top-level criterion fired (only possible for depth >= 1)
+            ctx.assume(depth >= 1)
+            return True, tree, prop
+        return False, tree, prop
+    return Native(contract, "_build_tree contract")
+
+
+def tc_contract(w):
+    def contract(ex, self_, tree, neg, pos):
+        r = ex.ctx.fresh("terminate", "bool")
+        w.tc_calls.append((tree, neg, pos, r))
+        # ghost lemma application: additivity of the interval functionals at the merge point (conditional on lo <= mid < hi)
+        split_axioms(ex.ctx, lift(w.idx(neg.attrs["negative"])), lift(w.idx(neg.attrs["positive"])), lift(w.idx(pos.attrs["positive"])))
+        return r
+    return Native(contract, "_termination_criterion contract")
+
+
+CLASSES = ("MultinomialDynamicIntegrationTransition", "SliceDynamicIntegrationTransition")
+
+
+def build_tree(run, it):
+    """_build_tree: base case executed exactly; inductive case executed with the recursive calls replaced by the contract."""
+    q = "DynamicIntegrationTransition._build_tree"
+    tag = P + q
+    run.function("mici.transitions." + q)
+    run.function("mici.transitions.DynamicIntegrationTransition._new_leave")
+    run.function("mici.transitions.DynamicIntegrationTransition._merge_subtrees")
+    for c in CLASSES:
+        for m in ("_weight_function", "_weight_ratio", "_check_divergence"):
+            run.function(f"mici.transitions.{c}.{m}")
+    install_dynamic(it, None)
+    s, d = z3.Int("s"), z3.Int("d")
+    N0, A0 = z3.Int("n_step_before"), z3.Real("sum_acc_before")
+
+    def setup(ctx, cls_name, nan_h):
+        w = DWorld(it, ctx, cls_name, errors=True, nan_h=nan_h)
+        w.fault_after = 0
+        w.contract_trees = []
+        w.aborted = False
+        ctx.assume(z3.Or(d == 1, d == -1))
+        ctx.assume(z3.And(N0 >= 0, A0 >= 0))
+        tr = w.new_transition()
+        st = w.make_state(s, d)
+        stats = {"n_step": N0, "sum_metrop_accept_prob": A0, "reject_prob": z3.RealVal(1), "diverging": False, "convergence_error": False, "non_reversible_step": False,
+                 "step_size": w.step_size}
+        aux = {"h_init": w.h_init}
+        if w.slice:
+            aux["log_u"] = LOGU
+        return w, tr, st, stats, aux
+
+    def base(ctx):
+        cls_name = CLASSES[ctx.choose(2, "class")]
+        w, tr, st, stats, aux = setup(ctx, cls_name, nan_h=True)
+        c = f"[{cls_name[:5]}]"
+        f = w.mod.resolve("DynamicIntegrationTransition", ctx).lookup("_build_tree")[0]
+        try:
+            term, tree, prop = w.ex.invoke(f, [tr, 0, st, stats, w.rng, aux], {})
+        except PyRaise as pr:
+            ctx.run.ob(tag + "/base/no-exception-escapes" + c, core.FAILED, "pyvc", detail=f"{exc_name(pr.exc)} escapes _build_tree")
+            return
+        i1 = s + d
+        dn = lift(stats["n_step"]) - N0
+        if tree is None:
+            ok = term is True and prop is None
+            ctx.run.ob(tag + "/base/abort-returns-terminate-without-tree" + c, core.DISCHARGED if ok else core.FAILED, "pyvc", detail="" if ok else f"{term}, {prop}")
+            nflags = sum(1 for k in ("diverging", "convergence_error", "non_reversible_step") if stats[k] is True)
+            ctx.run.ob(tag + "/base/abort-raises-a-flag-or-is-generic-integrator-error" + c, core.DISCHARGED if nflags <= 1 else core.FAILED, "pyvc", detail=str(nflags))
+            ctx.prove(tag + "/base/n_step-counts-completed-steps" + c, dn == len(w.steps), text="n_step is incremented exactly when integrator.step returned (a diverging state was still visited)")
+            if w.failed:
+                ctx.prove(tag + "/base/failed-step-not-counted" + c, z3.And(dn == 0, to_real(stats["sum_metrop_accept_prob"]) == A0))
+            else:
+                # divergence: raised iff the class's divergence test holds for the new state
+                div = stats["diverging"] is True
+                ctx.run.ob(tag + "/base/abort-without-step-error-is-divergence" + c, core.DISCHARGED if div else core.FAILED, "pyvc")
+            return
+        w.define_leaf(i1)
+        ctx.prove(tag + "/base/leaf-tree" + c, z3.And(w.tree_is(tree, i1, i1, 0, d), z3.BoolVal(prop is tree.attrs["negative"]), z3.BoolVal(tree.attrs["negative"] is tree.attrs["positive"]),
+                                                      z3.BoolVal(term is False)),
+                  text="depth 0: one integrator step; tree = {new state} with weight w(new state), sum_mom = its momentum; proposal = new state; terminate False")
+        ctx.prove(tag + "/base/n_step-incremented-once" + c, z3.And(dn == 1, z3.BoolVal(len(w.steps) == 1)))
+        ctx.prove(tag + "/base/accept-prob-sum-incremented-by-metropolis-ratio" + c, to_real(stats["sum_metrop_accept_prob"]) == A0 + AL(i1),
+                  text="sum_metrop_accept_prob += min(1, exp(h_init - h(new state)))")
+        ctx.run.ob(tag + "/base/no-random-draw" + c, core.DISCHARGED if not w.prob and w.draws == 0 else core.FAILED, "pyvc")
+        # no divergence was signalled: the class's divergence predicate is false
+        if w.slice:
+            ctx.prove(tag + "/base/slice-divergence-test-reads-only-h-and-slice-level" + c, H(i1) + LOGU <= MAXDH,
+                      text="slice: no divergence <=> h(new) + log_u <= max_delta_h (a function of the shared slice level, not of the start state)")
+        else:
+            ctx.prove(tag + "/base/multinomial-divergence-test" + c, H(i1) - w.h_init <= MAXDH)
+    it.explore(base, "build_tree.base", roots=[[0], [1]])
+
+    def step(ctx):
+        cls_name = CLASSES[ctx.choose(2, "class")]
+        w, tr, st, stats, aux = setup(ctx, cls_name, nan_h=False)
+        c = f"[{cls_name[:5]}]"
+        D = z3.Int("depth")
+        ctx.assume(D >= 1)
+        pow2_axioms(ctx, D)
+        m = POW2(D - 1)
+        f = w.mod.resolve("DynamicIntegrationTransition", ctx).lookup("_build_tree")[0]
+        it.call_contracts[q] = build_tree_contract(w)
+        it.call_contracts["DynamicIntegrationTransition._termination_criterion"] = tc_contract(w)
+        try:
+            try:
+                term, tree, prop = w.ex.invoke(f, [tr, D, st, stats, w.rng, aux], {})
+            except PyRaise as pr:
+                ctx.run.ob(tag + "/step/no-exception-escapes" + c, core.FAILED, "pyvc", detail=f"{exc_name(pr.exc)} escapes _build_tree")
+                return
+        finally:
+            del it.call_contracts[q]
+            del it.call_contracts["DynamicIntegrationTransition._termination_criterion"]
+        dn = lift(stats["n_step"]) - N0
+        ctx.prove(tag + "/step/n_step-equals-steps-taken" + c, dn == w.ghost_steps, text="n_step increases by exactly the number of integrator steps taken by the sub-trees")
+        ctx.prove(tag + "/step/accept-prob-sum-equals-sum-over-visited-states" + c, to_real(stats["sum_metrop_accept_prob"]) - A0 == w.ghost_acc)
+        if tree is None:
+            ok = term is True and prop is None
+            ctx.run.ob(tag + "/step/abort-returns-terminate-without-tree" + c, core.DISCHARGED if ok else core.FAILED, "pyvc", detail="" if ok else f"{term}, {prop}")
+            ctx.run.ob(tag + "/step/abort-draws-nothing" + c, core.DISCHARGED if not w.prob else core.FAILED, "pyvc")
+            # a complete sub-tree whose criterion fired is discarded
+            return
+        if len(w.contract_trees) != 2:
+            ctx.run.ob(tag + "/step/two-sub-trees" + c, core.FAILED, "pyvc", detail=f"{len(w.contract_trees)} recursive calls produced a tree")
+            return
+        (t_in, p_in, lo_i, hi_i), (t_out, p_out, lo_o, hi_o) = w.contract_trees
+        lo, hi = z3.If(d == 1, s + 1, s - 2 * m), z3.If(d == 1, s + 2 * m, s - 1)
+        mid = lo + m - 1
+        split_axioms(ctx, lo, mid, hi)
+        ctx.prove(tag + "/step/sub-trees-are-adjacent-halves" + c,
+                  z3.And(z3.If(d == 1, z3.And(lo_i == lo, hi_i == mid, lo_o == mid + 1, hi_o == hi), z3.And(lo_o == lo, hi_o == mid, lo_i == mid + 1, hi_i == hi))),
+                  text="inner sub-tree = the 2^(depth-1) states next to the start, outer sub-tree = the following 2^(depth-1) states, in direction dir")
+        ctx.prove(tag + "/step/merged-tree-is-the-interval" + c, w.tree_is(tree, lo, hi, D, d),
+                  text="tree.negative/positive are the interval ends, weight = W(lo,hi), sum_mom = S(lo,hi), depth = depth (additivity instance at the midpoint)")
+        ctx.prove(tag + "/step/n_step-increases-by-2^depth" + c, dn == POW2(D))
+        ctx.prove(tag + "/step/accept-prob-sum-increases-by-interval-sum" + c, to_real(stats["sum_metrop_accept_prob"]) - A0 == AC(lo, hi))
+        # progressive uniform sampling inside the sub-tree
+        ok = len(w.prob) == 1
+        ctx.run.ob(tag + "/step/exactly-one-uniform-draw" + c, core.DISCHARGED if ok else core.FAILED, "pyvc", detail="" if ok else f"{len(w.prob)} draws")
+        if ok:
+            _, took_outer, p = w.prob[0]
+            p = to_real(p)
+            ctx.prove(tag + "/step/outer-acceptance-probability-is-weight-fraction" + c, z3.Implies(WT(lo, hi) > 0, p * WT(lo, hi) == WT(lo_o, hi_o)),
+                      text="P(proposal from outer sub-tree) == W(outer) / W(tree)  (uniform progressive sampling)")
+            ctx.prove(tag + "/step/outer-acceptance-probability-in-unit-interval" + c, z3.And(p >= 0, p <= 1))
+            sel = p_out if took_outer else p_in
+            ctx.run.ob(tag + "/step/proposal-selected-by-the-draw" + c, core.DISCHARGED if prop is sel else core.FAILED, "pyvc",
+                       detail="" if prop is sel else "proposal is not the sub-tree proposal selected by the draw")
+        # the termination decision is evaluated on (tree, lower half, upper half) whatever the build direction
+        ok = len(w.tc_calls) == 1
+        ctx.run.ob(tag + "/step/criterion-evaluated-once-on-the-merged-tree" + c, core.DISCHARGED if ok else core.FAILED, "pyvc", detail=str(len(w.tc_calls)))
+        if ok:
+            t, ng, ps, r = w.tc_calls[0]
+            ctx.prove(tag + "/step/criterion-arguments-direction-independent" + c,
+                      z3.And(z3.BoolVal(t is tree), w.tree_is(ng, lo, mid, D - 1), w.tree_is(ps, mid + 1, hi, D - 1)),
+                      text="_termination_criterion(tree, lower-index half, upper-index half): a function of the leaf set, not of the direction the tree was built in")
+            okr = term is r
+            ctx.run.ob(tag + "/step/terminate-is-the-criterion-value" + c, core.DISCHARGED if okr else core.FAILED, "pyvc")
+    it.explore(step, "build_tree.step", roots=[[0], [1]])
+
+    def lemma(ctx):
+        """uniform progressive sampling: if E_in W_in == F_in, E_out W_out == F_out and the outer proposal is taken with probability
+        W_out / (W_in + W_out) then E W == F for the merged tree (F additive).  This carries the selection-law clause of the contract
+        through the recursion (probabilistic-choice rule: E = p E_out + (1-p) E_in)."""
+        Ei, Eo, Wi, Wo, Fi, Fo, p = z3.Reals("E_in E_out W_in W_out F_in F_out p")
+        ctx.assume(z3.And(Wi >= 0, Wo >= 0, Wi + Wo > 0, Ei * Wi == Fi, Eo * Wo == Fo, p * (Wi + Wo) == Wo))
+        ctx.prove(tag + "/lemma/uniform-progressive-sampling-preserves-the-selection-law", (p * Eo + (1 - p) * Ei) * (Wi + Wo) == Fi + Fo, prefer=None,
+                  text="(p E_out + (1-p) E_in) (W_in + W_out) == F_in + F_out")
+    it.explore(lemma, "build_tree.lemma")
+
+
+def dynamic_sample(run, it):
+    """DynamicIntegrationTransition.sample: loop invariant over the doubling loop, with _build_tree and _termination_criterion by contract."""
+    q = "DynamicIntegrationTransition.sample"
+    tag = P + q
+    run.function("mici.transitions." + q)
+    install_dynamic(it, None)
+    s0, d_in = z3.Int("s0"), z3.Int("d_in")
+
+    def harness(ctx):
+        cls_name = CLASSES[ctx.choose(2, "class")]
+        c = f"[{cls_name[:5]}]"
+        w = DWorld(it, ctx, cls_name, errors=False, nan_h=False)
+        w.contract_trees = []
+        w.aborted = False
+        w.bt_calls = []
+        ctx.assume(z3.Or(d_in == 1, d_in == -1))
+        ctx.assume(w.h_init == H(s0))
+        if w.slice:
+            ctx.assume(LOGU <= -H(s0))  # log_u = log(u) - h_init with 0 < u < 1 (proved of _init_aux_vars separately)
+        tr = w.new_transition()
+        st = w.make_state(s0, d_in)
+        w.define_leaf(s0)
+        pow2_axioms(ctx, z3.IntVal(0))
+        pow2_axioms(ctx, z3.IntVal(1))
+        rec = {}
+
+        def aux_contract(ex, self_, state, rng):
+            a = {"h_init": H(lift(w.idx(state)))}
+            if w.slice:
+                a["log_u"] = LOGU
+            return a
+
+        def cur(ex):
+            tree = ex.env.lookup("tree")
+            return tree, lift(w.idx(tree.attrs["negative"])), lift(w.idx(tree.attrs["positive"]))
+
+        def havoc(ex):
+            j = ex.ctx.fresh("doublings", "int")
+            ex.ctx.ghost["loop_index"] = j
+            if ex.ctx.choose(2, "first-iteration") == 0:
+                ex.ctx.assume(j == 0)
+                return
+            ex.ctx.assume(j >= 1)
+            pow2_axioms(ex.ctx, j)
+            pow2_axioms(ex.ctx, j + 1)
+            a, b = ex.ctx.fresh("a", "int"), ex.ctx.fresh("b", "int")
+            ex.ctx.assume(z3.And(a <= s0, s0 <= b, b - a + 1 == POW2(j)))
+            da, db = ex.ctx.fresh("dir_a", "int"), ex.ctx.fresh("dir_b", "int")
+            ex.ctx.assume(z3.And(z3.Or(da == 1, da == -1), z3.Or(db == 1, db == -1)))
+            tree = w.ex.call(w.subtree_cls, [], {"negative": w.make_state(a, da), "positive": w.make_state(b, db), "sum_mom": SP(a, b), "weight": WT(a, b), "depth": j})
+            ex.env.set("tree", tree)
+            ns = ex.ctx.fresh("next_idx", "int")
+            ex.ctx.assume(z3.And(ns >= a, ns <= b))
+            ex.env.set("next_state", w.make_state(ns, ex.ctx.fresh("dir_n", "int")))
+            stats = ex.env.lookup("stats")
+            G, SA, RP = ex.ctx.fresh("steps_so_far", "int"), ex.ctx.fresh("acc_so_far", "real"), ex.ctx.fresh("reject_so_far", "real")
+            stats["n_step"], stats["sum_metrop_accept_prob"], stats["reject_prob"] = G, SA, RP
+            w.ghost_steps, w.ghost_acc = G, SA
+            w.functional_facts(a, b)
+            w.prob[:] = []
+            w.draws = 0
+
+        def inv(ex):
+            j = lift(ex.ctx.ghost.get("loop_index", 0))
+            tree, a, b = cur(ex)
+            stats = ex.env.lookup("stats")
+            ns = lift(w.idx(ex.env.lookup("next_state")))
+            flags = all(stats[k] is False for k in ("diverging", "convergence_error", "non_reversible_step"))
+            conds = [j >= 0, j <= w.max_depth, a <= s0, s0 <= b, b - a + 1 == POW2(j), w.tree_is(tree, a, b, j), ns >= a, ns <= b,
+                     lift(stats["n_step"]) == w.ghost_steps, to_real(stats["sum_metrop_accept_prob"]) == w.ghost_acc, lift(stats["n_step"]) >= 0,
+                     to_real(stats["sum_metrop_accept_prob"]) >= 0, to_real(stats["reject_prob"]) >= 0, to_real(stats["reject_prob"]) <= 1, z3.BoolVal(flags)]
+            if w.slice:
+                conds.append(WT(a, b) >= 1)
+            return z3.And(*conds)
+
+        def on_body(ex):
+            tree, a, b = cur(ex)
+            stats = ex.env.lookup("stats")
+            rec.update(j=ex.ctx.ghost["loop_index"], a=a, b=b, tree=tree, next=ex.env.lookup("next_state"), rp=to_real(stats["reject_prob"]), n0=len(w.prob), frame=ex)
+
+        def iteration_obligations():
+            if "j" not in rec:
+                return
+            j, a, b = rec["j"], rec["a"], rec["b"]
+            ex = rec["frame"]
+            draws = w.prob[rec["n0"]:]
+            ok = len(draws) >= 1
+            ctx.run.ob(tag + "/iteration/direction-draw" + c, core.DISCHARGED if ok else core.FAILED, "pyvc")
+            if not ok:
+                return
+            _, is_pos, p = draws[0]
+            direction = ex.env.lookup("direction")
+            ctx.prove(tag + "/iteration/direction-bit-is-fair" + c, z3.And(to_real(p) * 2 == 1, z3.BoolVal(direction == (1 if is_pos else -1))),
+                      text="direction = +1 with probability exactly 1/2, -1 otherwise")
+            ok = len(w.bt_calls) == 1
+            ctx.run.ob(tag + "/iteration/one-build-tree-call" + c, core.DISCHARGED if ok else core.FAILED, "pyvc", detail=str(len(w.bt_calls)))
+            if not ok:
+                return
+            bd, bi, bdir = w.bt_calls[0]
+            ctx.prove(tag + "/iteration/new-sub-tree-grown-from-the-edge-in-the-drawn-direction" + c,
+                      z3.And(lift(bd) == j, bi == (b if direction == 1 else a), bdir == direction),
+                      text="_build_tree(depth=j, state=edge of the current tree in the drawn direction with dir=direction): doubles the trajectory")
+            nxt = ex.env.lookup("next_state")
+            stats = ex.env.lookup("stats")
+            if w.aborted or rec.get("terminated_subtree"):
+                pass
+            if not w.contract_trees:
+                ctx.run.ob(tag + "/iteration/aborted-doubling-keeps-state-and-draws-nothing-more" + c,
+                           core.DISCHARGED if (nxt is rec["next"] and len(draws) == 1) else core.FAILED, "pyvc")
+                return
+            new_tree, new_prop, lo_n, hi_n = w.contract_trees[0]
+            if len(draws) == 1:
+                # complete new sub-tree rejected by its own criterion: discarded without a selection draw
+                ctx.run.ob(tag + "/iteration/terminated-sub-tree-is-discarded" + c, core.DISCHARGED if nxt is rec["next"] else core.FAILED, "pyvc")
+                return
+            ok = len(draws) == 2
+            ctx.run.ob(tag + "/iteration/one-selection-draw" + c, core.DISCHARGED if ok else core.FAILED, "pyvc", detail=str(len(draws)))
+            if not ok:
+                return
+            _, acc, p2 = draws[1]
+            p2 = to_real(p2)
+            Wn, Wo = WT(lo_n, hi_n), WT(a, b)
+            ctx.prove(tag + "/iteration/biased-progressive-acceptance-probability" + c, z3.Implies(Wo > 0, p2 * Wo == z3.If(Wn >= Wo, Wo, Wn)),
+                      text="P(move to the new sub-tree's proposal) == min(1, W(new) / W(old))")
+            ctx.prove(tag + "/iteration/acceptance-probability-in-unit-interval" + c, z3.And(p2 >= 0, p2 <= 1))
+            sel = new_prop if acc else rec["next"]
+            ctx.run.ob(tag + "/iteration/next-state-selected-by-the-draw" + c, core.DISCHARGED if nxt is sel else core.FAILED, "pyvc",
+                       detail="" if nxt is sel else "next_state is not the state selected by the draw")
+            ctx.prove(tag + "/iteration/reject-prob-statistic" + c, to_real(stats["reject_prob"]) == rec["rp"] * (1 - p2))
+            ok = len(w.tc_calls) == 1
+            ctx.run.ob(tag + "/iteration/criterion-evaluated-once-on-the-merged-tree" + c, core.DISCHARGED if ok else core.FAILED, "pyvc", detail=str(len(w.tc_calls)))
+            if ok:
+                t, ng, ps, r = w.tc_calls[0]
+                lo, hi = (a, hi_n) if direction == 1 else (lo_n, b)
+                mid = b if direction == 1 else hi_n
+                split_axioms(ctx, lo, mid, hi)
+                ctx.prove(tag + "/iteration/merged-tree-and-criterion-arguments" + c,
+                          z3.And(w.tree_is(t, lo, hi, j + 1), w.tree_is(ng, lo, mid, j), w.tree_is(ps, mid + 1, hi, j), z3.BoolVal(t is ex.env.lookup("tree"))),
+                          text="merged tree = old interval + new interval (lower-index half first); _termination_criterion(merged, lower half, upper half)")
+
+        it.call_contracts["DynamicIntegrationTransition._build_tree"] = Native(
+            lambda ex, self_, depth, state, stats, rng, aux: (w.bt_calls.append((depth, lift(w.idx(state)), w.dir(state))), build_tree_contract(w).fn(ex, self_, depth, state, stats, rng, aux))[1], "bt")
+        it.call_contracts["DynamicIntegrationTransition._termination_criterion"] = tc_contract(w)
+        it.call_contracts["DynamicIntegrationTransition._init_aux_vars"] = Native(aux_contract, "aux")
+        it.call_contracts["SliceDynamicIntegrationTransition._init_aux_vars"] = Native(aux_contract, "aux")
+        it.loop_specs[(q, 0)] = LoopSpec(inv, havoc, on_body=on_body)
+        try:
+            try:
+                out, stats = w.ex.call(w.ex.getattr(tr, "sample"), [st, w.rng], {})
+            except PyRaise as pr:
+                ctx.run.ob(tag + "/no-exception-escapes" + c, core.FAILED, "pyvc", detail=f"{exc_name(pr.exc)} escapes sample()")
+                return
+            except PathEnd:
+                iteration_obligations()
+                raise
+        finally:
+            for k in ("DynamicIntegrationTransition._build_tree", "DynamicIntegrationTransition._termination_criterion", "DynamicIntegrationTransition._init_aux_vars",
+                      "SliceDynamicIntegrationTransition._init_aux_vars"):
+                it.call_contracts.pop(k, None)
+            del it.loop_specs[(q, 0)]
+        iteration_obligations()
+        # post-loop: statistics and returned state
+        n = lift(stats["n_step"])
+        ctx.prove(tag + "/n_step-equals-integrator-steps-taken" + c, n == w.ghost_steps, text="n_step statistic == number of integrator steps taken in the whole transition")
+        flags = any(stats[k] is True for k in ("diverging", "convergence_error", "non_reversible_step"))
+        av = to_real(stats["av_metrop_accept_prob"]) if not isinstance(stats["av_metrop_accept_prob"], float) else z3.RealVal(0)
+        ctx.prove(tag + "/av-accept-prob-is-mean-over-visited-states" + c, z3.If(n > 0, av * z3.ToReal(n) == w.ghost_acc, av == 0),
+                  text="av_metrop_accept_prob == (sum over visited states of min(1, exp(h_init - h))) / n_step")
+        acs = stats["accept_stat"]
+        acs = to_real(acs) if not isinstance(acs, float) else z3.RealVal(str(acs))
+        ctx.prove(tag + "/accept-stat" + c, acs == (z3.RealVal(0) if flags else av), text="accept_stat == mean acceptance probability (0 when an error flag is set)")
+        ok = "sum_metrop_accept_prob" not in stats
+        ctx.run.ob(tag + "/internal-accumulator-not-reported" + c, core.DISCHARGED if ok else core.FAILED, "pyvc")
+        ctx.run.ob(tag + "/returns-a-state-of-the-tree" + c, core.DISCHARGED if isinstance(out, Obj) and out.cls is w.cs else core.FAILED, "pyvc")
+    it.explore(harness, "dynamic.sample", roots=[[0], [1]])
+
+    def lemma(ctx):
+        """biased progressive sampling (one doubling, old tree L of weight W_L, new tree R of weight W_R): for an end state x in L with
+        sum_{s in L} w_s T_L(s,x) == w_x (induction hypothesis) the doubled kernel gives
+        sum_{s in L} w_s (1 - min(1, W_R/W_L)) T_L(s,x)  +  sum_{s in R} w_s min(1, W_L/W_R) w_x / W_L  ==  w_x."""
+        WL_, WR_, wx = z3.Reals("W_L W_R w_x")
+        ctx.assume(z3.And(WL_ > 0, WR_ > 0, wx >= 0))
+        aLR = z3.If(WR_ >= WL_, 1, WR_ / WL_)
+        aRL = z3.If(WL_ >= WR_, 1, WL_ / WR_)
+        ctx.prove(tag + "/lemma/biased-progressive-sampling-step", (1 - aLR) * wx + WR_ * aRL * wx / WL_ == wx,
+                  text="(1 - min(1, W_R/W_L)) w_x + W_R min(1, W_L/W_R) w_x / W_L == w_x")
+    it.explore(lemma, "dynamic.lemma")
+
+
+def termination_and_aux(run, it):
+    """_termination_criterion and SliceDynamicIntegrationTransition._init_aux_vars executed exactly."""
+    q = "DynamicIntegrationTransition._termination_criterion"
+    tag = P + q
+    run.function("mici.transitions." + q)
+    run.function("mici.transitions.SliceDynamicIntegrationTransition._init_aux_vars")
+    run.function("mici.transitions.DynamicIntegrationTransition._init_aux_vars")
+    install_dynamic(it, None)
+
+    def crit(ctx):
+        w = DWorld(it, ctx, CLASSES[0], errors=False)
+        tr = w.new_transition()
+        lo, mid, hi, D = z3.Ints("lo mid hi depth")
+        ctx.assume(z3.And(lo <= mid, mid < hi, D >= 1))
+        split_axioms(ctx, lo, mid, hi)
+        leaf_axioms(ctx, mid)
+        leaf_axioms(ctx, mid + 1)
+        # S(lo, mid+1) = S(lo, mid) + p(mid+1);  S(mid, hi) = p(mid) + S(mid+1, hi)   (additivity instances)
+        ctx.assume(SP(lo, mid + 1) == SP(lo, mid) + SP(mid + 1, mid + 1))
+        ctx.assume(SP(mid, hi) == SP(mid, mid) + SP(mid + 1, hi))
+        tree, neg, pos = w.make_tree(lo, hi, 1, D), w.make_tree(lo, mid, 1, D - 1), w.make_tree(mid + 1, hi, 1, D - 1)
+        f = w.mod.resolve("DynamicIntegrationTransition", ctx).lookup("_termination_criterion")[0]
+        r = w.ex.invoke(f, [tr, tree, neg, pos], {})
+        calls = w.crit_calls
+        contiguous = z3.And(*[sm == SP(a, b) for a, b, sm in calls]) if calls else z3.BoolVal(True)
+        ctx.prove(tag + "/criterion-evaluated-on-contiguous-sub-trajectories", contiguous,
+                  text="every user-criterion call receives (first state, last state, sum of momenta) of one contiguous sub-trajectory of the tree")
+        spans = [(a, b) for a, b, _ in calls]
+        ctx.prove(tag + "/first-check-is-the-whole-tree", z3.And(spans[0][0] == lo, spans[0][1] == hi))
+        extra_on = ctx.feasible(z3.And(w.extra, D > 1)) and not ctx.feasible(z3.Not(z3.And(w.extra, D > 1)))
+        if len(calls) > 1:
+            ctx.prove(tag + "/extra-checks-only-when-enabled-and-depth-above-one", z3.And(w.extra, D > 1))
+            exp = [(lo, mid + 1), (mid, hi)]
+            ctx.prove(tag + "/extra-checks-on-the-two-overlapping-sub-trees", z3.And(*[z3.And(a == ea, b == eb) for (a, b), (ea, eb) in zip(spans[1:], exp)]),
+                      text="extra checks: (lower half + first state of upper half) and (last state of lower half + upper half)")
+        val = z3.Or(*[CRIT(a, b, sm) for a, b, sm in calls])
+        rv_ = r if is_z3(r) else z3.BoolVal(bool(r))
+        ctx.prove(tag + "/result-is-disjunction-of-the-checks", rv_ == val)
+    it.explore(crit, "termination_criterion")
+
+    def aux(ctx):
+        w = DWorld(it, ctx, CLASSES[1], errors=False)
+        tr = w.new_transition()
+        s0 = z3.Int("s0")
+        st = w.make_state(s0, 1)
+        u = z3.Real("u")
+        ctx.assume(z3.And(u > 0, u < 1))
+
+        def np_log(ex, x):
+            if isinstance(x, UDraw):
+                w.log_draw = x
+                return mathlib.log_term(ex.ctx, u)
+            return mathlib.m_log(ex, x)
+        old = it.ext_modules["numpy"].log
+        it.ext_modules["numpy"].log = Native(np_log, "np.log")
+        try:
+            a = w.ex.call(w.ex.getattr(tr, "_init_aux_vars"), [st, w.rng], {})
+        finally:
+            it.ext_modules["numpy"].log = old
+        t = P + "SliceDynamicIntegrationTransition._init_aux_vars"
+        ctx.prove(t + "/h_init-is-hamiltonian-of-start", to_real(a["h_init"]) == H(s0))
+        ok = w.draws == 1 and w.log_draw is not None
+        ctx.run.ob(t + "/one-uniform-draw-for-the-slice-level", core.DISCHARGED if ok else core.FAILED, "pyvc")
+        lu = to_real(a["log_u"])
+        e = mathlib.exp_term(ctx, lu)
+        t1 = mathlib.exp_hom(ctx, mathlib.LOG(u), -H(s0))
+        ctx.prove(t + "/slice-level-uniform-under-the-start-density", z3.And(lu == mathlib.LOG(u) - H(s0), e == u * mathlib.exp_term(ctx, -H(s0)), lu <= -H(s0)),
+                  text="log_u = log(U) - h_init, i.e. exp(log_u) = U exp(-h(start)) is uniform on (0, exp(-h(start))); the start state lies in the slice")
+    it.explore(aux, "init_aux_vars")
+
+
+def criteria_static(run):
+    """the built-in termination criteria read nothing but their arguments (no global, random or object state): their value is a function of the
+    sub-trajectory they are applied to"""
+    import ast
+    import os
+    src = open(os.path.join(core.SRC, "mici", "transitions.py")).read()
+    mod = ast.parse(src)
+    for fn in mod.body:
+        if isinstance(fn, ast.FunctionDef) and fn.name.endswith("_no_u_turn_criterion"):
+            run.function("mici.transitions." + fn.name)
+            params = {a.arg for a in fn.args.args}
+            body = ast.Module(body=fn.body, type_ignores=[])
+            loads = {n.id for n in ast.walk(body) if isinstance(n, ast.Name) and isinstance(n.ctx, ast.Load)}
+            stores = [n for n in ast.walk(body) if isinstance(n, (ast.Assign, ast.AugAssign, ast.Global, ast.Nonlocal))]
+            ok = loads <= params | {"np"} and not stores
+            run.ob(P + fn.name + "/reads-only-its-arguments", core.DISCHARGED if ok else core.FAILED, "frames", detail="" if ok else f"reads {sorted(loads - params)}",
+                   text="criterion value is a pure function of (system, state_1, state_2, sum_mom)")
+            attrs = {(n.value.id, n.attr) for n in ast.walk(body) if isinstance(n, ast.Attribute) and isinstance(n.value, ast.Name)}
+            ok2 = attrs <= {("system", "dh_dmom"), ("state_1", "pos"), ("state_2", "pos"), ("np", "sum")}
+            run.ob(P + fn.name + "/reads-velocities-and-positions-only", core.DISCHARGED if ok2 else core.FAILED, "frames", detail="" if ok2 else str(sorted(attrs)))
+
+
+class FilterRun:
+    """view of a Run that records only the obligations selected by `keep` (other properties import subsets of these harnesses)"""
+
+    def __init__(self, base, keep):
+        object.__setattr__(self, "_base", base)
+        object.__setattr__(self, "_keep", keep)
+
+    def __getattr__(self, name):
+        return getattr(self._base, name)
+
+    def __setattr__(self, name, v):
+        setattr(self._base, name, v)
+
+    def ob(self, oid, *a, **k):
+        if self._keep(oid):
+            return self._base.ob(oid, *a, **k)
+        return None
+
+
+C12_KEYS = ("error", "abort", "no-exception-escapes", "nan", "failed-step", "terminated-sub-tree", "loop0")
 
 
 def c12_obligations(run, tier):
-    return None
+    """containment part (C12): IntegratorErrors, divergences and NaN Hamiltonians inside a trajectory end in a rejection / an earlier valid
+    candidate with the matching statistic flag, and no exception escapes Transition.sample"""
+    fr = FilterRun(run, lambda oid: any(k in oid for k in C12_KEYS))
+    it = make_interp(fr)
+    metropolis(fr, it)
+    it2 = make_interp(fr)
+    build_tree(fr, it2)
+    it3 = make_interp(fr)
+    dynamic_sample(fr, it3)
+    it.dropped |= it2.dropped | it3.dropped
+    it.paths += it2.paths + it3.paths
+    return it
